@@ -1975,9 +1975,11 @@ class SetTo(Action, HasDefaultDebugInfo):
     def debug_lookup(self, tag: DTAG):
         if tag == DTAG.NAME:
             if self.value_expr.is_literal():
-                return "set into {} {}".format(ProgramData.lookup(self.into_storage, DTAG.NAME), self.value_expr.get_literal_result())
-            else:
-                return "set into {}".format(ProgramData.lookup(self.into_storage, DTAG.NAME))
+                try:
+                    return "set into {} {}".format(ProgramData.lookup(self.into_storage, DTAG.NAME), self.value_expr.get_literal_result())
+                except (ArithmeticError, ValueError):
+                    pass  # a constant division by zero or negative shift has no value to show
+            return "set into {}".format(ProgramData.lookup(self.into_storage, DTAG.NAME))
         elif tag == DTAG.STRICT_TIMING_REASON:
             if not self.is_timing_strict():
                 return None
@@ -2518,9 +2520,10 @@ class SumIntegerExpr(MathIntegerExpr):
         total = self.children[0].get_literal_result()
         for operand, operator in itertools.islice(zip(self.children, self.negate), 1, None):
             if operator:
-                total -= operand
+                total -= operand.get_literal_result()
             else:
-                total += operand
+                total += operand.get_literal_result()
+        return total
 
     def __eq__(self, other):
         if not isinstance(other, SumIntegerExpr): return False
@@ -2540,11 +2543,12 @@ class MulIntegerExpr(MathIntegerExpr):
         total = self.children[0].get_literal_result()
         for operand, operator in itertools.islice(zip(self.children, self.divide), 1, None):
             if operator == MulIntegerExprOp.DIV:
-                total //= operand
+                total //= operand.get_literal_result()
             elif operator == MulIntegerExprOp.MOD:
-                total %= operand
+                total %= operand.get_literal_result()
             else:
-                total *= operand
+                total *= operand.get_literal_result()
+        return total
 
     def __eq__(self, other):
         if not isinstance(other, MulIntegerExpr): return False
